@@ -117,9 +117,8 @@ theorem lexHexNumber_ok (cls : Cls) (src : List Char) : FoundOK (lexHexNumber cl
   intro k n h
   unfold lexHexNumber at h
   split at h
-  · rename_i c rest
+  · rename_i z x c rest
     split at h
-    · cases h
     · split at h
       · cases h
       · rename_i j hj
@@ -128,6 +127,7 @@ theorem lexHexNumber_ok (cls : Cls) (src : List Char) : FoundOK (lexHexNumber cl
           have := hexScan_le cls _ _ hj
           simp at this ⊢; omega
         · cases h
+    · cases h
   · cases h
 
 theorem lexLongDecade_ok (cls : Cls) (src : List Char) : FoundOK (lexLongDecade cls src) src.length := by
